@@ -823,7 +823,8 @@ CHECK = Check(
         "scheduler rounds; per-address handler log with "
         "virtual times must equal the per-address reference model (which tracks the documented discard of a datagram whose generator "
         "ends before its first yield), at most one active generator per address, exactly-once finalisation, serving task alive; "
-        "non-trivial = a datagram arrives while that client's generator is active or in the very tick it finishes; distinct = sha1"
+        "non-trivial = a datagram arrives while that client's generator is active or in the very tick it finishes; layer fairness: a backlog of "
+        "40-300 datagrams of one client behind a handler that was slow once - at most 30 requests may be handled within one event-loop iteration; distinct = sha1"
     ),
     layers=[
         Layer("lowlevel", _strategy("lowlevel"), run_case, {"quick": 1200, "thorough": 8000}),
